@@ -282,6 +282,9 @@ func (te *tableEngine) StartTableGame() error {
 }
 
 func (te *tableEngine) UpdateBlind(level int, ante, dealer, sb, bb int64) {
+	te.lock.Lock()
+	defer te.lock.Unlock()
+
 	te.table.State.BlindState.Level = level
 	te.table.State.BlindState.Ante = ante
 	te.table.State.BlindState.Dealer = dealer
@@ -373,6 +376,9 @@ PlayerJoin 玩家入桌
   - 適用時機: 玩家已經確認座位後入桌
 */
 func (te *tableEngine) PlayerJoin(playerID string) error {
+	te.lock.Lock()
+	defer te.lock.Unlock()
+
 	playerIdx := te.table.FindPlayerIdx(playerID)
 	if playerIdx == UnsetValue {
 		return ErrTablePlayerNotFound
@@ -426,6 +432,9 @@ PlayerRedeemChips 增購籌碼
   - 適用時機: 增購
 */
 func (te *tableEngine) PlayerRedeemChips(joinPlayer JoinPlayer) error {
+	te.lock.Lock()
+	defer te.lock.Unlock()
+
 	// find player index in PlayerStates
 	playerIdx := te.table.FindPlayerIdx(joinPlayer.PlayerID)
 	if playerIdx == UnsetValue {
